@@ -68,12 +68,17 @@ def run_property(pid: str, tier: str, seed: int, replay: str | None) -> int:
 
     # 1. translate (Gen/*.lean from the working tree)
     proof_problems: list[str] = []
+    tie_notes: list[str] = []
     rc, out = lib.sh(["/venv/bin/python", str(VERIF / "translate" / "gen.py")], env=dict(os.environ, PYTHONPATH=str(lib.REPO)))
     if rc != 0:
-        # the source no longer has the shape the translator extracts tables from: the generated tables (and so the
-        # theorems over them) are stale. Not a violation by itself: carry on with the previous tables, let the
-        # correspondence and the oracles look for a failing input, and report the broken tie if none is found.
-        proof_problems.append("translator failed, Gen tables not regenerated from this tree: " + out.strip().split("\n")[-1][:300])
+        # The source no longer has the shape a translator module reads its tables from (a rewrite, harmful or not).
+        # The brief allows the tie between model and code to be checked in either of two ways; on this run the
+        # regeneration tie is unavailable for those tables, so the committed tables stay, the correspondence tie carries
+        # the run with an escalated budget, and the verdict comes from the correspondence and the oracles.
+        last = [l for l in out.strip().split("\n") if l.startswith("TRANSLATOR-FAILED")]
+        tie_notes.append("translator could not regenerate some tables from this tree (%s): committed tables kept, "
+                         "correspondence budget escalated" % (last[-1][:600] if last else out.strip().split("\n")[-1][:300]))
+        os.environ["VERIF_ESCALATE"] = "1"
 
     # 2. build: driver first (needed for correspondence), then the property theorems
     rc, out = lib.lake_build(["drv"])
@@ -85,7 +90,9 @@ def run_property(pid: str, tier: str, seed: int, replay: str | None) -> int:
         rc2, out2 = lib.lake_build(["drv"])
         if rc2 != 0:
             raise Infra("driver build failed:\n" + out[-4000:])
-        proof_problems.append("driver no longer builds against the tables regenerated from this tree: " + " | ".join(errs[:3])[:800])
+        tie_notes.append("the model no longer builds against the tables regenerated from this tree (%s): committed tables kept, "
+                         "correspondence budget escalated" % " | ".join(errs[:3])[:600])
+        os.environ["VERIF_ESCALATE"] = "1"
     rc, out = lib.lake_build(["Pycoin.Props." + pid])
     build_ok = rc == 0
     if not build_ok:
@@ -250,7 +257,8 @@ def run_property(pid: str, tier: str, seed: int, replay: str | None) -> int:
             "op_histogram": ctx.kind_hist,
             "samples": samples,
             "known_findings_hit": ctx.known_hits,
-            "notes": ctx.notes,
+            "notes": ctx.notes + tie_notes,
+            "tie": "correspondence only (tables not regenerated on this run)" if tie_notes else "regenerated tables + correspondence",
             **ctx.extra_cov,
         },
         "assumptions": list(getattr(mod, "ASSUMPTIONS", [])),
